@@ -334,7 +334,32 @@ def rule_call_stack(ck):
         ck.ob("bits.call_stack", f"{nm}/keeps-rsp", not bad, "", g.loc())
 
 
+def rule_cache_key(ck):
+    """a memoised lookup must be keyed by everything the lookup depends on"""
+    prog = ck.prog
+    ck.rule("mpt.call_cache_key", "CallCache::get_or_insert memoises Debugger::search_fn_to_call(linkage_name, name): every parameter that reaches the search on a miss also reaches the key given to HashMap::entry — the Debug::fmt of generic types is found by one linkage-name template plus the instance name, so a key without the name answers `vard` of [i64; 2] with the function found for [u8; 4]")
+    f = ck.anchor("debugger::call::cache::CallCache::get_or_insert")
+    search = [c for c in f.calls() if c.name.endswith("::search_fn_to_call")]
+    entry = [c for c in f.calls() if re.search(r"HashMap::<K, V, S(, A)?>::(entry|get|get_mut|contains_key|insert)$", c.name)]
+    if not ck.ob("mpt.call_cache_key", "get_or_insert/one-search-and-a-keyed-lookup", len(search) == 1 and len(entry) >= 1, f"{len(search)} searches, {len(entry)} map lookups", f.loc()):
+        return
+    def reaches(param, call, argi):
+        t = taint_from(f, {param})
+        for a in call.args[argi:]:
+            pl = op_place(a)
+            if pl and pl[0] in t:
+                return True
+        return False
+    for prm in range(3, f.argc + 1):
+        nm = f.raw["locals"][prm][1] or f"arg{prm}"
+        if not reaches(prm, search[0], 1):
+            continue
+        in_key = any(reaches(prm, e, 1) for e in entry)
+        ck.ob("mpt.call_cache_key", f"get_or_insert/{nm}-is-part-of-the-key", in_key, f"`{nm}` selects the function on a miss but is not part of the cache key", f.loc(entry[0].bb), what="vard/argd format a value with the Debug::fmt of another instantiation of the same generic type that was looked up earlier in the session")
+
+
 def run(ck):
+    rule_cache_key(ck)
     rule_call_stack(ck)
     rule_restore(ck)
     rule_brkpts(ck)
